@@ -1,3 +1,139 @@
+(* C02 — property theorems (statements only; proofs in Proofs.v).
+   stack = any nesting of KDSubset (Sub), KDConcatDataset (Cat, balanced or not) and
+   KDWrapper (Wrap) layers over root datasets; resolve/slen/getall/util_getall/root/
+   wrappers/dispose = the model of the code (Model.v); map_of/den_of = the
+   compositional index map (Spec.v). *)
+From Coq Require Import ZArith List Bool.
+Import ListNotations.
 From KD Require Import C02.Model C02.Spec C02.Proofs.
-Theorem placeholder_C02 : True. Proof. exact placeholder. Qed.
-Print Assumptions placeholder_C02.
+Open Scope Z_scope.
+
+(* item k of the composed dataset is item map(k) of the underlying datasets; negative k
+   counts from the end; for every nesting *)
+Theorem resolve_is_nth_map : forall s k,
+  valid s = true -> is_fin (den_of s) = true ->
+  - zlen (map_of s) <= k < zlen (map_of s) ->
+  resolve s k = nth_error (map_of s) (Z.to_nat (if k <? 0 then zlen (map_of s) + k else k)).
+Proof. exact Proofs.resolve_is_nth_map. Qed.
+Print Assumptions resolve_is_nth_map.
+
+(* the same for stacks whose top is a balanced concat (endless round-robin denotation) *)
+Theorem resolve_is_at : forall s k,
+  valid s = true -> in_dom (den_of s) k = true -> resolve s k = at_ (den_of s) k.
+Proof. exact Proofs.resolve_is_at. Qed.
+Print Assumptions resolve_is_at.
+
+(* every valid index resolves (no exception) *)
+Theorem resolve_defined : forall s k,
+  valid s = true -> in_dom (den_of s) k = true -> resolve s k <> None.
+Proof. exact Proofs.resolve_defined. Qed.
+Print Assumptions resolve_defined.
+
+Theorem len_is_length_map : forall s,
+  valid s = true -> is_fin (den_of s) = true -> slen s = Some (zlen (map_of s)).
+Proof. exact Proofs.len_is_length_map. Qed.
+Print Assumptions len_is_length_map.
+
+(* balanced sampling: index j*P + d is sample (j mod len_d) of part d *)
+Theorem balanced_round_robin : forall parts j d,
+  valid (Cat true parts) = true ->
+  0 <= j -> (d < length parts)%nat ->
+  let part := map_of (nth d parts stack_dflt) in
+  resolve (Cat true parts) (j * zlen parts + Z.of_nat d) =
+  nth_error part (Z.to_nat (j mod zlen part)).
+Proof. exact Proofs.balanced_round_robin. Qed.
+Print Assumptions balanced_round_robin.
+
+(* bisect over the cumulative sizes returns the unique (part, offset) with
+   sizes[0] + ... + sizes[part-1] + offset = k *)
+Theorem to_concat_idx_inverse : forall sizes k,
+  Forall (fun x => 0 <= x) sizes -> 0 <= k < zsum sizes ->
+  exists d j, to_concat_idx (cumsum 0 sizes) k = Some (d, j)
+    /\ (d < length sizes)%nat /\ 0 <= j < nth d sizes 0 /\ zsum (firstn d sizes) + j = k
+    /\ forall d' j', (d' < length sizes)%nat -> 0 <= j' < nth d' sizes 0 ->
+                     zsum (firstn d' sizes) + j' = k -> d' = d /\ j' = j.
+Proof. exact Proofs.to_concat_idx_inverse. Qed.
+Print Assumptions to_concat_idx_inverse.
+
+Theorem to_concat_idx_negative : forall sizes k,
+  sizes <> [] -> - zsum sizes <= k < 0 ->
+  to_concat_idx (cumsum 0 sizes) k = to_concat_idx (cumsum 0 sizes) (zsum sizes + k).
+Proof. exact Proofs.to_concat_idx_negative. Qed.
+Print Assumptions to_concat_idx_negative.
+
+(* getall (fast path when offered, sample-wise slow path otherwise) returns the index map
+   and agrees element-wise with getitem, through any nesting without balanced concat *)
+Theorem getall_eq_map_getitem : forall s,
+  valid s = true -> no_balanced s = true -> lists_ok s = true ->
+  exists b, util_getall s = GOk b (map_of s)
+    /\ (has_getall s = true -> getall s = GOk b (map_of s))
+    /\ slen s = Some (zlen (map_of s))
+    /\ forall k, 0 <= k < zlen (map_of s) -> nth_error (map_of s) (Z.to_nat k) = resolve s k.
+Proof. exact Proofs.getall_eq_map_getitem. Qed.
+Print Assumptions getall_eq_map_getitem.
+
+(* the slow path alone is right even below balanced concats *)
+Theorem util_getall_slow : forall s,
+  valid s = true -> is_fin (den_of s) = true -> has_getall s = false ->
+  util_getall s = GOk true (map_of s).
+Proof. exact Proofs.util_getall_slow. Qed.
+Print Assumptions util_getall_slow.
+
+(* the fast path below a balanced concat is NOT the map (recorded finding) *)
+Theorem getall_balanced_refuted :
+  exists s, valid s = true /\ has_getall s = true /\ lists_ok s = true /\
+            getall s <> GOk true (map_of s).
+Proof. exact Proofs.getall_balanced_refuted. Qed.
+Print Assumptions getall_balanced_refuted.
+
+(* introspection through every linear chain of layers *)
+Theorem root_of_linear_chain : forall ls id n pk, root (build ls (Root id n pk)) = id.
+Proof. exact Proofs.root_of_linear_chain. Qed.
+Print Assumptions root_of_linear_chain.
+
+Theorem wrappers_of_linear_chain : forall ls id n pk,
+  wrappers (build ls (Root id n pk)) = map ltag ls.
+Proof. exact Proofs.wrappers_of_linear_chain. Qed.
+Print Assumptions wrappers_of_linear_chain.
+
+Theorem wrappers_of_type_linear_chain : forall t ls id n pk,
+  wrappers_of_type t (build ls (Root id n pk)) = positions t 0 (map ltag ls).
+Proof. exact Proofs.wrappers_of_type_linear_chain. Qed.
+Print Assumptions wrappers_of_type_linear_chain.
+
+Theorem has_wrapper_type_linear_chain : forall t ls id n pk,
+  has_wrapper_type t (build ls (Root id n pk)) = existsb (Z.eqb t) (map ltag ls).
+Proof. exact Proofs.has_wrapper_type_linear_chain. Qed.
+Print Assumptions has_wrapper_type_linear_chain.
+
+Theorem every_stack_is_a_chain_over_its_base : forall s,
+  build (fst (unbuild s)) (snd (unbuild s)) = s.
+Proof. exact Proofs.build_unbuild. Qed.
+Print Assumptions every_stack_is_a_chain_over_its_base.
+
+Theorem dispose_linear_chain : forall ls id n pk, dispose (build ls (Root id n pk)) = [id].
+Proof. exact Proofs.dispose_linear_chain. Qed.
+Print Assumptions dispose_linear_chain.
+
+(* dispose reaches every root below the stack (also through concats) *)
+Theorem dispose_reaches_root : forall s, dispose s = roots s.
+Proof. exact Proofs.dispose_reaches_root. Qed.
+Print Assumptions dispose_reaches_root.
+
+Theorem root_is_first_root : forall s, ctor_ok s = true -> hd_error (roots s) = Some (root s).
+Proof. exact Proofs.root_is_first_root. Qed.
+Print Assumptions root_is_first_root.
+
+(* non-vacuity of the premises: a valid 4-layer stack with a negative subset entry, an
+   empty concat part and a balanced concat below a subset *)
+Example nonvacuous_valid :
+  let s := Wrap 3 (Sub 1 [2; -1; 0] (Cat false [Root 0 2 PList; Root 1 0 PList; Sub 0 [1; 1] (Root 2 3 PArray)])) in
+  valid s = true /\ is_fin (den_of s) = true /\ no_balanced s = true /\ lists_ok s = true
+  /\ map_of s = [(2, 1); (2, 1); (0, 0)] /\ resolve s (-3) = Some (2, 1).
+Proof. vm_compute. repeat split; reflexivity. Qed.
+
+Example nonvacuous_balanced :
+  let s := Cat true [Root 0 2 PList; Root 1 3 PList] in
+  valid s = true /\ map (resolve s) [0; 1; 2; 3; 4; 5] =
+                    [Some (0, 0); Some (1, 0); Some (0, 1); Some (1, 1); Some (0, 0); Some (1, 2)].
+Proof. vm_compute. split; reflexivity. Qed.
